@@ -13,7 +13,8 @@ package soyjs
 
 // C13: map literals are emitted in sorted key order.
 //@ func (*state).walk
-//@   props C13
+//@   props C13 C14
+//@   noterm
 //@   nosafety
 //@   modifies *
 //@   loop 1
@@ -24,3 +25,215 @@ package soyjs
 //@   props C13
 //@   nosafety
 //@   pure
+
+// ---------------------------------------------------------------------------
+// C14 (the "preserves every literal" half): the generated script is made of
+// the generator's own text, identifiers the lexer has validated, numbers, and
+// the output of the JavaScript string escaper. jsok(s) says that s may be
+// written verbatim; every string handed to (*state).js / jsln / Write must
+// satisfy it. Strings that originate in the template (raw text, string
+// literals, map keys, css suffixes, message text, global values) do not, and
+// can only reach the output through template.JSEscape.
+//@ specfn jsok(s string) bool
+//@ taint jsok const
+//@ taint jsok field ast.DataRefNode.Key ast.DataRefKeyNode.Key ast.LetValueNode.Name ast.LetContentNode.Name ast.ForNode.Var ast.CallParamValueNode.Key ast.CallParamContentNode.Key ast.NamespaceNode.Name ast.SoyFileNode.Name soyjs.PrintDirective.Name soyjs.state.bufferName
+
+//@ functype jsEmitter
+//@   params s
+//@   props C14
+//@   nosafety
+//@   noterm
+//@   modifies *
+
+//@ func (*state).js
+//@   like jsEmitter
+//@   requires[only-generator-text-or-escaped;C14] forall(i, 0, len(args), !typeis(args[i], string) || jsok(unbox(args[i], string)))
+//@ func (*state).jsln
+//@   like jsEmitter
+//@   requires[only-generator-text-or-escaped;C14] forall(i, 0, len(args), !typeis(args[i], string) || jsok(unbox(args[i], string)))
+//@ func (*state).Write
+//@   like jsEmitter
+//@   requires[only-generator-text-or-escaped;C14] forall(i, 0, len(args), !typeis(args[i], string) || jsok(unbox(args[i], string)))
+//@ func (*state).writeRawText
+//@   like jsEmitter
+//@ func (*state).op
+//@   like jsEmitter
+//@   requires jsok(symbol)
+//@ func (*state).visitSoyFile
+//@   like jsEmitter
+//@ func (*state).visitNamespace
+//@   like jsEmitter
+//@ func (*state).visitDataRef
+//@   like jsEmitter
+//@   loop 0
+//@     invariant[expr-is-generated-text;C14] jsok(expr)
+//@ func (*state).visitIf
+//@   like jsEmitter
+//@ func (*state).visitSwitch
+//@   like jsEmitter
+//@ func (*state).walkPlural
+//@   like jsEmitter
+
+// the scope maps hold only names built by makevar / pushForRange / pushForEach
+// (proved to be jsok below); that lookup returns one of them is trusted.
+//@ func (*scope).lookup
+//@   props C14
+//@   nosafety
+//@   noterm
+//@   pure
+//@   trustedensures[names-are-generated;C14] jsok(result)
+//@ func (*scope).looplimit
+//@   props C14
+//@   nosafety
+//@   pure
+//@   trustedensures[names-are-generated;C14] jsok(result)
+//@ func (*scope).loopindex
+//@   props C14
+//@   nosafety
+//@   pure
+//@   trustedensures[names-are-generated;C14] jsok(result)
+//@ func (*scope).makevar
+//@   props C14
+//@   nosafety
+//@   modifies *
+//@   requires[identifier;C14] jsok(varname)
+//@   ensures[generated-name;C14] jsok(result)
+//@ func (*scope).pushForRange
+//@   props C14
+//@   nosafety
+//@   modifies *
+//@   requires[identifier;C14] jsok(loopVar)
+//@   ensures[generated-names;C14] jsok(lVar) && jsok(lLimit)
+//@ func (*scope).pushForEach
+//@   props C14
+//@   nosafety
+//@   modifies *
+//@   requires[identifier;C14] jsok(loopVar)
+//@   ensures[generated-names;C14] jsok(lVar) && jsok(lList) && jsok(lLen) && jsok(lIndex)
+
+// block renders a sub-expression with a nested emitter (same discipline) and
+// returns what it wrote; that this text may be spliced verbatim is trusted.
+//@ func (*state).block
+//@   like jsEmitter
+//@   trustedensures[text-of-a-nested-emitter;C14] jsok(result)
+
+//@ func (*state).visitTemplate
+//@   like jsEmitter
+//@ func (*state).visitPrint
+//@   like jsEmitter
+//@ func (*state).visitFunction
+//@   like jsEmitter
+//@ func (*state).visitCall
+//@   like jsEmitter
+//@   loop 0
+//@     invariant[data-expr-is-generated-text;C14] jsok(dataExpr)
+//@ func (*state).visitFor
+//@   like jsEmitter
+//@ func (*state).visitForRange
+//@   like jsEmitter
+//@ func (*state).visitForeach
+//@   like jsEmitter
+//@ func (*state).visitMsg
+//@   like jsEmitter
+//@ func (*state).evalMsgParts
+//@   like jsEmitter
+//@ func (*state).visitMsgNode
+//@   like jsEmitter
+//@ func (*state).visitGlobal
+//@   like jsEmitter
+//@ func (*state).visitChildren
+//@   like jsEmitter
+
+// A JSFormatter is supplied by the caller of soyjs.Write; that the names and
+// declarations it returns may be written verbatim is assumed (the two built-in
+// formatters build them from the template name and fixed text).
+//@ iface JSFormatter.Template
+//@   props C14
+//@   pure
+//@   ensures jsok(result0) && jsok(result1)
+//@ iface JSFormatter.Call
+//@   props C14
+//@   pure
+//@   ensures jsok(result0)
+//@ iface JSWriter.Write
+//@   props C14
+//@   modifies *
+//@   requires[only-generator-text-or-escaped;C14] forall(i, 0, len(a0), !typeis(a0[i], string) || jsok(unbox(a0[i], string)))
+
+// the built-in function translations write fixed text and their argument nodes
+//@ func funcIsNonnull
+//@   props C14
+//@   nosafety
+//@   noterm
+//@   modifies *
+//@ func funcLength
+//@   props C14
+//@   nosafety
+//@   noterm
+//@   modifies *
+//@ func funcRound
+//@   props C14
+//@   nosafety
+//@   noterm
+//@   modifies *
+//@ func funcFloor
+//@   props C14
+//@   nosafety
+//@   noterm
+//@   modifies *
+//@ func funcCeiling
+//@   props C14
+//@   nosafety
+//@   noterm
+//@   modifies *
+//@ func funcMin
+//@   props C14
+//@   nosafety
+//@   noterm
+//@   modifies *
+//@ func funcMax
+//@   props C14
+//@   nosafety
+//@   noterm
+//@   modifies *
+//@ func funcRandomInt
+//@   props C14
+//@   nosafety
+//@   noterm
+//@   modifies *
+//@ func funcStrContains
+//@   props C14
+//@   nosafety
+//@   noterm
+//@   modifies *
+//@ func funcHasData
+//@   props C14
+//@   nosafety
+//@   noterm
+//@   modifies *
+//@ func funcBidiGlobalDir
+//@   props C14
+//@   nosafety
+//@   noterm
+//@   modifies *
+//@ func funcBidiDirAttr
+//@   props C14
+//@   nosafety
+//@   noterm
+//@   modifies *
+//@ func funcBidiStartEdge
+//@   props C14
+//@   nosafety
+//@   noterm
+//@   modifies *
+//@ func funcBidiEndEdge
+//@   props C14
+//@   nosafety
+//@   noterm
+//@   modifies *
+//@ func builtinFunc$1
+//@   props C14
+//@   nosafety
+//@   noterm
+//@   modifies *
+//@   requires[fixed-prefix;C14] jsok(funcStart)
